@@ -100,8 +100,18 @@ def _burg_model(ctx, x, m):
         _a, rho, _k, rhos, _s = ref.burg_ref(x, m - 1)
         r0 = float(np.mean(np.abs(x) ** 2))
         ctx.check(r0 == 0 or not np.isfinite(rho) or rho <= 1e-12 * r0,
-                  "arburg rejects data whose order %d Burg error power is %g of the data power" % (m - 1, rho / r0))
+                  "arburg rejects data whose order %d Burg error power is %g of the data power" % (m - 1, rho / r0 if r0 else 0.0))
         return None
+    # the model that defines R is the *reference* Burg recursion on the data (independent of the package);
+    # the package's own arburg must agree with it (error growth of its denominator recursion ~ rho_0/rho_m)
+    a_ref, rho_ref, k_ref, rhos, _s = ref.burg_ref(x, m - 1)
+    r0 = float(np.mean(np.abs(x) ** 2))
+    if np.all(np.isfinite(k_ref)) and rho_ref > 0 and r0 > 0:
+        growth = r0 / rho_ref
+        ctx.check(np.asarray(k).shape == k_ref.shape and float(np.max(np.abs(np.asarray(k) - k_ref))) <= 1e-9 + 1e-11 * growth,
+                  "arburg(x, %d) reflection coefficients differ from the textbook Burg recursion by %.3g (rho_0/rho_m = %.3g)"
+                  % (m - 1, float(np.max(np.abs(np.asarray(k) - k_ref))) if np.asarray(k).shape == k_ref.shape else float("nan"), growth),
+                  sig={"clause": "burg-model"})
     return np.asarray(a), float(np.real(P)), np.asarray(k)
 
 
@@ -238,3 +248,14 @@ def c16_class(ctx, case):
     ctx.check(ar.shape == (m,) and ar[0] == 1, "pminvar.ar is not [1, a_1..a_{m-1}]: shape %s" % (ar.shape,))
     ctx.close(ar[1:].astype(complex), a.astype(complex), "pminvar.ar[1:] vs arburg(x, m-1)", rtol=1e-12, atol=1e-12 * sc)
     ctx.close(np.asarray(p.reflection).astype(complex), k.astype(complex), "pminvar.reflection vs arburg", rtol=1e-12, atol=1e-12)
+
+
+# ---- number-type invariance (integer samples of a narrow dtype) -------------------
+from vlib import dtypecheck as _dt   # noqa: E402
+
+
+@sub("C16.dtype", strategy=_dt.int_case(sorted(_dt.TABLES["C16"])), quick=300, thorough=6000,
+     doc="the same integer-valued samples stored as int16/int8/uint8/uint16/int32/int64 or as float64 give the same result "
+         "(products of two narrow integers do not fit their dtype): " + ", ".join(sorted(_dt.TABLES["C16"])))
+def c16_dtype(ctx, case):
+    _dt.body(ctx, case, _dt.TABLES["C16"])
